@@ -44,6 +44,7 @@ def obsSpec (st : SpecSt) : String :=
 inductive HOp where
   | list (op : ListOp)
   | fifo
+  | fifoOff                             -- SetFIFO(false): once on, FIFO mode stays on
   | neg (b : Bool)
   | fwd (b : Bool)
   | nnest (b : Bool)
@@ -72,6 +73,7 @@ def parseHOp (ts : List String) : HOp :=
   | ["rev"] => .list .reverse
   | ["reset"] => .list .reset
   | ["fifo"] => .fifo
+  | ["fifo0"] => .fifoOff
   | ["neg", b] => .neg (b == "1")
   | ["fwd", b] => .fwd (b == "1")
   | ["nnest", b] => .nnest (b == "1")
@@ -107,6 +109,7 @@ partial def histModel (s : Stk) (ops : List HOp) (acc : List String) : List Stri
       | .ok (s', o) => histModel s' rest (s!"{showOut lop o} {obsModel s'}" :: acc)
       | .error f => (s!"FAULT:{f.toString}" :: acc).reverse
     | .fifo => let s' := s.setFIFO true; histModel s' rest (s!"- {obsModel s'}" :: acc)
+    | .fifoOff => let s' := s.setFIFO false; histModel s' rest (s!"- {obsModel s'}" :: acc)
     | .neg b => let s' := s.setState Gen.flag_negidx (some b); histModel s' rest (s!"- {obsModel s'}" :: acc)
     | .fwd b => let s' := s.setState Gen.flag_fwdidx (some b); histModel s' rest (s!"- {obsModel s'}" :: acc)
     | .nnest b => let s' := s.setState Gen.flag_nnest (some b); histModel s' rest (s!"- {obsModel s'}" :: acc)
@@ -143,7 +146,8 @@ def specPush (st : SpecSt) (vs : List Val) : SpecSt :=
   match st.ppf with
   | none => { st with l := (ListSpec.apply (st.c.opts st.l) st.l (.push vs)).1 }
   | some p =>
-    let r := ListSpec.pushPol (interp p) (st.c.opts st.l).room vs
+    -- C13 applies whatever the policy says: Stacks are skipped (not offered) while no-nesting is set
+    let r := ListSpec.pushPol (interp p) (st.c.opts st.l).room (vs.filter (fun v => !(st.c.nnest && v.isStack)))
     { st with l := st.l ++ r.1, err := match r.2 with | some e => some e | none => st.err }
 
 def specOfStk (s : Stk) : SpecSt := { c := s.conf, l := s.xs, ppf := s.cfg.ppf, err := s.cfg.err, cfg0 := s.cfg }
@@ -174,6 +178,7 @@ partial def histSpec (st : SpecSt) (ops : List HOp) (acc : List String) : List S
         histSpec st' rest (s!"{showOut lop o} {obsSpec st'}" :: acc)
     | .fifo => let st' := if st.c.ronly then st else { st with c := { st.c with fifo := true } }
                histSpec st' rest (s!"- {obsSpec st'}" :: acc)
+    | .fifoOff => histSpec st rest (s!"- {obsSpec st}" :: acc)     -- the latch: switching off is never honoured
     | .neg b => let st' := if st.c.ronly then st else { st with c := { st.c with neg := b } }
                 histSpec st' rest (s!"- {obsSpec st'}" :: acc)
     | .fwd b => let st' := if st.c.ronly then st else { st with c := { st.c with fwd := b } }
@@ -239,6 +244,7 @@ partial def histInScope (st : SpecSt) (ops : List HOp) : Bool :=
       | .ppol p => (if st.c.ronly then st else { st with ppf := if p == 0 then none else some p }, true)
       | .clrerr => (st, true)
       | .cfg => (st, true)
+      | .fifoOff => (st, true)
       | .xferto src => (match src with
           | .stk _ _ xs => if st.c.ronly then st else (specTransfer xs st).1
           | _ => st, true)
